@@ -1,15 +1,16 @@
 import subprocess, sys
 lines=open(sys.argv[1]).read().splitlines()
-out=[]
-i=0
+out=[]; i=0
 while i < len(lines):
-    p=subprocess.run(["/tmp/pm/ge/goev"], input="\n".join(lines[i:])+"\n", capture_output=True, text=True)
+    try:
+        p=subprocess.run(["/tmp/pm/ge/goev"], input="\n".join(lines[i:])+"\n", capture_output=True, text=True, timeout=600)
+    except subprocess.TimeoutExpired:
+        out.append("CRASH"); i+=1; continue
     o=p.stdout.splitlines()
     if p.returncode not in (0,3):
-        # hard crash (e.g. stack overflow): the line being processed produced no complete output
         if o and not (o[-1].startswith(("OK","ERR","V ","NOPARSE","PANIC","VPANIC","TIMEOUT","PARSEPANIC"))): o=o[:-1]
         o.append("CRASH")
-    out+=o
-    i+=len(o)
+    if not o and p.returncode!=0: o=["CRASH"]
+    out+=o; i+=len(o)
     if p.returncode==0: break
 open(sys.argv[2],"w").write("\n".join(out)+"\n")
